@@ -167,8 +167,62 @@ def epics_registry_part(ck, tier, rng):
                 return
 
 
+def command_adapters_part(ck, tier, rng):
+    """an adapter on one device must answer the same whether or not an adapter of another device -- of the same class, of
+    its parent class or of a subclass -- has been used before it (the shipped CommandAdapter, driven without a network)"""
+    import asyncio
+
+    from tickit.adapters.specifications import RegexCommand
+    from tickit.adapters.tcp import CommandAdapter
+    from tickit.utils.byte_format import ByteFormat
+
+    def classes():
+        class Readback(CommandAdapter):
+            _byte_format = ByteFormat(b"%b")
+
+            @RegexCommand(rb"R\?", False)
+            async def read(self):
+                return b"r"
+
+        class Control(Readback):
+            @RegexCommand(rb"W=(\d+)", True)
+            async def write(self, value: int):
+                return b"w%d" % value
+
+        class Other(CommandAdapter):
+            _byte_format = ByteFormat(b"%b")
+
+            @RegexCommand(rb"W=(\d+)", False)
+            async def write(self, value: int):
+                return b"o%d" % value
+        return dict(readback=Readback, control=Control, other=Other)
+
+    async def ask(adapter, msgs):
+        out = []
+        for m in msgs:
+            replies, interrupt = await adapter.handle(m)
+            out.append(([r async for r in replies], interrupt))
+        return out
+
+    msgs = [b"R?", b"W=7", b"X"]
+    for subject in ("control", "readback", "other"):
+        alone = asyncio.run(ask(classes()[subject](), msgs))
+        for first in ("readback", "control", "other"):
+            cl = classes()
+            warm = cl[first]()
+            asyncio.run(ask(warm, msgs[:rng.randint(1, 3)]))
+            got = asyncio.run(ask(cl[subject](), msgs))
+            ck.count(f"command-adapters:{subject}:{first}", subject != first)
+            if got != alone:
+                ck.report("command-adapter-influenced-by-an-adapter-of-another-device",
+                          f"a {subject} adapter answers {got} after a {first} adapter of another device has been used, {alone} on its own",
+                          dict(kind="command_adapters", subject=subject, first=first, alone=str(alone), after=str(got)))
+                return
+
+
 def all_adapter_parts(ck, tier, rng):
     adapters_part(ck, tier, rng)
+    command_adapters_part(ck, tier, rng)
     epics_registry_part(ck, tier, rng)
 
 
@@ -212,7 +266,7 @@ def replay(rp):
     if rp.get("kind") == "topic":
         from props import c15
         return c15.replay(rp)
-    if rp.get("kind") in ("adapters", "epics", "epics_registry"):
+    if rp.get("kind") in ("adapters", "epics", "epics_registry", "command_adapters"):
         ck = _Collect()
         all_adapter_parts(ck, rp.get("tier", "quick"), random.Random(rp.get("seed", 0)))
         for reason, what in ck.hits:
